@@ -63,11 +63,18 @@ func registerCheck(property, check string, f func(c known.Case) (bool, string)) 
 	replayers[property+"/"+check] = f
 }
 
-func evalCase(c known.Case) (bool, string, error) {
+func evalCase(c known.Case) (violated bool, detail string, err error) {
 	f, ok := replayers[c.Property+"/"+c.Check]
 	if !ok {
 		return false, "", fmt.Errorf("no replayer for %s/%s", c.Property, c.Check)
 	}
+	// an operation of the library that panics while a property is evaluated cannot have produced the result the
+	// property requires: it is reported as a violation of that property (with the panic value), not as a harness failure
+	defer func() {
+		if p := recover(); p != nil {
+			violated, detail, err = true, fmt.Sprintf("the library panicked while the property was evaluated: %v", p), nil
+		}
+	}()
 	v, d := f(c)
 	return v, d, nil
 }
